@@ -103,6 +103,13 @@ func (x *gcRunner) emit(e string, kv ...any) {
 	x.r.Emit(e, kv...)
 }
 
+func (x *gcRunner) chanClosed(name string) {
+	x.mu.Lock()
+	x.subLive[name] = false // a closed subscription discharges the harness' expectations
+	x.mu.Unlock()
+	x.emit("chanclosed", "s", name)
+}
+
 func (x *gcRunner) publish(pname, topic string, n int, batch bool) {
 	var batchMsgs []*message.Message
 	for i := 0; i < n; i++ {
@@ -121,7 +128,7 @@ func (x *gcRunner) publish(pname, topic string, n int, batch bool) {
 		}
 		pc := fmt.Sprintf("%s.%d", pname, atomic.AddInt32(&x.pseq, 1))
 		x.noteStart(mid, topic)
-		x.emit("pubstart", "p", pc, "m", mid, "topic", topic, "payload", string(msg.Payload), "meta", map[string]string{"k": mid, "empty": ""})
+		x.emit("pubstart", "p", pc, "m", mid, "topic", topic, "payload", string(msg.Payload), "meta", map[string]string{"k": mid, "empty": ""}, "after", "")
 		var err error
 		p, v := Guarded(func() { err = x.g.Publish(topic, msg) })
 		if p {
@@ -133,12 +140,14 @@ func (x *gcRunner) publish(pname, topic string, n int, batch bool) {
 	if batch && len(batchMsgs) > 0 {
 		// one call with several messages: logged as one abstract publish per message, started together, ended together
 		var pcs []string
+		prev := ""
 		for _, msg := range batchMsgs {
 			pc := fmt.Sprintf("%s.%d", pname, atomic.AddInt32(&x.pseq, 1))
 			pcs = append(pcs, pc)
 			mid := x.short(msg.UUID)
 			x.noteStart(mid, topic)
-			x.emit("pubstart", "p", pc, "m", mid, "topic", topic, "payload", string(msg.Payload), "meta", map[string]string{"k": mid, "empty": ""})
+			x.emit("pubstart", "p", pc, "m", mid, "topic", topic, "payload", string(msg.Payload), "meta", map[string]string{"k": mid, "empty": ""}, "after", prev)
+			prev = pc
 		}
 		var err error
 		p, v := Guarded(func() { err = x.g.Publish(topic, batchMsgs...) })
@@ -225,7 +234,7 @@ func (x *gcRunner) consume(s gcSub, ch <-chan *message.Message, cnt *int32, canc
 			<-x.closeReturned
 			for range ch {
 			}
-			x.emit("chanclosed", "s", s.Name)
+			x.chanClosed(s.Name)
 			return
 		}
 		if s.CancelAfter > 0 && n == s.CancelAfter && !s.StopReading {
@@ -249,7 +258,7 @@ func (x *gcRunner) consume(s gcSub, ch <-chan *message.Message, cnt *int32, canc
 				} else {
 					x.emit("ack", "s", s.Name, "m", mid)
 					msg.Ack()
-					x.emit("chanclosed", "s", s.Name)
+					x.chanClosed(s.Name)
 					return
 				}
 			case <-time.After(8 * time.Millisecond):
@@ -289,7 +298,7 @@ func (x *gcRunner) consume(s gcSub, ch <-chan *message.Message, cnt *int32, canc
 			}
 		}()
 	}
-	x.emit("chanclosed", "s", s.Name)
+	x.chanClosed(s.Name)
 }
 
 func (x *gcRunner) closePubSub(name string, viaDecorators bool) {
@@ -390,6 +399,7 @@ func (x *gcRunner) fire(ev string) {
 		n := strings.TrimPrefix(ev, "cancel:")
 		x.mu.Lock()
 		c := x.cancels[n]
+		x.subLive[n] = false // nothing more is expected from a cancelled subscription
 		x.mu.Unlock()
 		if c != nil {
 			x.emit("cancel", "s", n)
@@ -427,7 +437,7 @@ func gcRun(r *tr.Run, sc gcScenario, rng *rand.Rand) (gateReached bool) {
 		gateReached = x.body()
 	})
 	if !WaitOrHang(done) {
-		x.emit("hung", "what", "scenario body", "stacks", gcStacks(label))
+		x.emit("hung", "what", "scenario body", "stacks", gcStacks(label), "body", gcBodyStack(label))
 		return
 	}
 	// goroutine leak check: nothing of this run may still be inside gochannel / the decorator
@@ -443,6 +453,25 @@ func gcRun(r *tr.Run, sc gcScenario, rng *rand.Rand) (gateReached bool) {
 		x.emit("leak", "stacks", leaked)
 	}
 	return
+}
+
+// gcBodyStack returns where the scenario body itself stands (diagnostics of a hang).
+func gcBodyStack(label string) string {
+	var buf bytes.Buffer
+	_ = pprof.Lookup("goroutine").WriteTo(&buf, 1)
+	for _, blk := range strings.Split(buf.String(), "\n\n") {
+		if strings.Contains(blk, `"wmrun":"`+label+`"`) && strings.Contains(blk, "(*gcRunner).body+") {
+			var keep []string
+			for _, l := range strings.Split(blk, "\n") {
+				if strings.Contains(l, "wmverif/props") {
+					f := strings.Fields(l)
+					keep = append(keep, f[len(f)-1])
+				}
+			}
+			return strings.Join(keep, " < ")
+		}
+	}
+	return ""
 }
 
 // gcStacks returns the Pub/Sub frames of goroutines that carry the run's pprof label.
@@ -503,9 +532,16 @@ func (x *gcRunner) body() (gateReached bool) {
 		s := s
 		if s.Phase == 1 {
 			p1.Add(1)
-			go func() { defer p1.Done(); x.subscribe(s) }()
+			go func() {
+				defer p1.Done()
+				x.subscribe(s)
+				if s.CancelAt == 1 { // (cancelled only once it exists)
+					time.Sleep(time.Duration(200) * time.Microsecond)
+					x.fire("cancel:" + s.Name)
+				}
+			}()
 		}
-		if s.CancelAt == 1 {
+		if s.CancelAt == 1 && s.Phase != 1 {
 			p1.Add(1)
 			go func() {
 				defer p1.Done()
